@@ -96,7 +96,8 @@ fn panic_class(p: &(dyn std::any::Any + Send)) -> String {
     } else {
         return "other:non-string".into();
     };
-    if s == "Cannot allocate memory to hold LeanString" {
+    // the plain forms panic with ReserveError's own Display text, whatever its wording is
+    if s == lean_string::ReserveError.to_string() {
         "reserve".into()
     } else if s == CB_PANIC {
         "callback".into()
@@ -349,6 +350,16 @@ impl Pool {
             Err(p) => {
                 res.cls = "panic".into();
                 res.msg = panic_class(&*p);
+                // the wording of a panic is not part of any property: a panic of an index-taking call that is
+                // neither the allocation-failure panic nor the harness's callback is the index panic, etc.
+                if res.msg.starts_with("other:") {
+                    match op.op.as_str() {
+                        "insert_str" | "remove" | "truncate" => res.msg = "index".into(),
+                        "clone_ovf" => res.msg = "rcoverflow".into(),
+                        "display" if op.n > 0 => res.msg = "fmt".into(),
+                        _ => {}
+                    }
+                }
             }
         }
         // ---------------------------------------------------------------- std String oracle
